@@ -140,6 +140,9 @@ type Engine struct {
 	known        map[int]bool
 	forkStr      []byte
 	forks        int
+	timerChans   []*ChanObj
+	timerResets  []*Term
+	ghosts       []*ghost
 }
 
 type nondetBytes struct {
@@ -606,6 +609,9 @@ func (e *Engine) resetPath() {
 	e.known = map[int]bool{}
 	e.forkStr = e.forkStr[:0]
 	e.forks = 0
+	e.timerChans = nil
+	e.timerResets = nil
+	e.ghosts = nil
 	e.wg = nil
 	e.sha1Memo = map[string]*Term{}
 	// restore init-phase objects
